@@ -8,7 +8,9 @@ Open Scope Z_scope.
 (* After any history [es], if a request [e] (single-request upload or multipart
    completion) is answered with an envelope, then the status is 200, the broker's reply to
    the produce request was a per-partition error code 0 (not another code, not a transport
-   error, not an unparseable or empty response), the object named by the envelope exists
+   error, not a late, unparseable or empty response; [broker_answer] is the code with which
+   the broker itself answered this request — under the model's named assumption "one request
+   per connection" that is the frame the proxy read), the object named by the envelope exists
    in S3 right after the request, and the envelope's size and SHA-256 are those of that
    object.  [hashf 0] is SHA-256 (any function). *)
 Theorem C32_success_sound : forall hashf cfg es w rs e w' p env,
@@ -16,7 +18,7 @@ Theorem C32_success_sound : forall hashf cfg es w rs e w' p env,
   step hashf cfg w e = (w', p) ->
   p_env p = Some env ->
   p_status p = 200 /\
-  completion_reply e = Some (RCode 0) /\
+  (exists r, completion_reply e = Some r /\ broker_answer r = Some 0) /\
   exists obj, get_obj (e_key env) (w_objects w') = Some obj /\
               e_size env = bsize obj /\ e_sha env = hashf 0 obj.
 Proof. exact success_sound. Qed.
@@ -27,7 +29,7 @@ Print Assumptions C32_success_sound.
 Theorem C32_broker_error_rejected : forall hashf cfg es w rs e w' p r,
   run hashf cfg init_world es = (w, rs) ->
   step hashf cfg w e = (w', p) ->
-  completion_reply e = Some r -> r <> RCode 0 ->
+  completion_reply e = Some r -> broker_answer r <> Some 0 ->
   p_status p <> 200 /\ p_env p = None.
 Proof. exact broker_error_rejected. Qed.
 Print Assumptions C32_broker_error_rejected.
@@ -42,7 +44,7 @@ Theorem C32_success_sound_interleaved : forall hashf cfg cs y rs c y' p env,
   cstep hashf cfg y c = (y', Some p) ->
   p_env p = Some env ->
   exists e, executed y c = Some e /\ p_status p = 200 /\
-    completion_reply e = Some (RCode 0) /\
+    (exists r, completion_reply e = Some r /\ broker_answer r = Some 0) /\
     exists obj, get_obj (e_key env) (w_objects (y_w y')) = Some obj /\
                 e_size env = bsize obj /\ e_sha env = hashf 0 obj.
 Proof. exact csuccess_sound. Qed.
@@ -51,7 +53,7 @@ Print Assumptions C32_success_sound_interleaved.
 Theorem C32_broker_error_rejected_interleaved : forall hashf cfg cs y rs c y' p e r,
   crun hashf cfg init_sys cs = (y, rs) ->
   cstep hashf cfg y c = (y', Some p) ->
-  executed y c = Some e -> completion_reply e = Some r -> r <> RCode 0 ->
+  executed y c = Some e -> completion_reply e = Some r -> broker_answer r <> Some 0 ->
   p_status p <> 200 /\ p_env p = None.
 Proof. exact cbroker_error_rejected. Qed.
 Print Assumptions C32_broker_error_rejected_interleaved.
